@@ -124,6 +124,8 @@ class Process:
       pass
 
   def Parse(self, entry):
+    # LOGICA_PARSER is read by every ParseFile call
+    os.environ['LOGICA_PARSER'] = entry.get('parser') or 'PY'
     return self.parse.ParseFile(entry['text'],
                                 import_root=entry.get('import_root'))['rule']
 
@@ -152,11 +154,12 @@ class Process:
     self.texts.setdefault(sha, text)
     return sha
 
-  def One(self, entry, pred, mode, rules_fn, used):
+  def One(self, entry, pred, mode, rules_fn, used, fresh=True):
     sink = io.StringIO()
     aux_v = aux_o = ''
     n_iter = 0
     parse_failed = False
+    rules_sha = ''
     exec_status = ''
     self.rec_modes = []
     cpu0 = time.process_time()
@@ -165,6 +168,8 @@ class Process:
         parse_failed = True
         rules = rules_fn()
         parse_failed = False
+        if fresh:
+          rules_sha = Sha(json.dumps(Canon(rules), sort_keys=True))
         program = self.universe.LogicaProgram(
             rules, user_flags=dict(entry.get('user_flags') or {}))
         raw = program.FormattedPredicateSql(pred)
@@ -187,7 +192,7 @@ class Process:
     self.events.append({
         'prog': entry['idx'], 'pred': pred, 'mode': mode, 'used': bool(used),
         'status': status, 'exec': exec_status, 'parse_failed': parse_failed,
-        'sql': self.Keep(text), 'aux': self.Keep(aux_m),
+        'sql': self.Keep(text), 'aux': self.Keep(aux_m), 'rul': rules_sha,
         'ord': Sha(Mask(aux_o)),
         'stop': bool(MASK_RE.search(raw) or MASK_RE.search(aux_v)),
         'raw_differs': text != raw or aux_m != aux_v,
@@ -224,7 +229,7 @@ class Process:
     passes = 1 if (self.used[prog] or failed) else 2
     for _ in range(passes):
       for pred in entry['preds']:
-        self.One(entry, pred, mode, Rules, self.used[prog])
+        self.One(entry, pred, mode, Rules, self.used[prog], fresh=False)
       if prog in self.store:
         self.used[prog] = True
     if failed:
